@@ -1,5 +1,6 @@
 import GqlVerif.Props.C13
 import GqlVerif.Proofs.ComposedC13
+import GqlVerif.Proofs.C13Inj
 open GqlVerif.C13
 #print axioms decorate_spec
 #print axioms decorate_double_required_panics
@@ -21,3 +22,8 @@ open GqlVerif.C13
 #print axioms GqlVerif.Composed.oneOf_member_type
 #print axioms GqlVerif.Composed.oneOf_member_rule
 #print axioms GqlVerif.Composed.oneOf_member_nonnull_panics
+-- the rule loses no modifier: equal Rust types => equal modifier shapes (Proofs/C13Inj.lean)
+#print axioms rustOf_shape_inj
+#print axioms rustOf_distinct
+#print axioms rustOf_not_inj_without_wf
+#print axioms rustOf_not_inj_without_plainBase
